@@ -210,3 +210,61 @@ Theorem Pem_parse_never_panics_monitored : forall g,
     Pem.Model.parse_root g (Pem.Model.toks_of_list l) rx fuel s e <> Pem.Model.RPanic p.
 Proof. exact Pem.NoPanicMon.parse_never_panics_mon. Qed.
 Print Assumptions Pem_parse_never_panics_monitored.
+
+(** Termination of the parser engine (the non-termination clause of C03 for the combinator engine): for every
+    graph that satisfies the decidable side condition [term_safe_b] - a set of token-consuming nodes containing
+    the opening brackets and the keyword-like terminators of every trimming node, and a rank for every invocable
+    node that decreases along every call the engine can make at the caller's own start index (context
+    terminators included) -, every token stream and regex oracle, the interpreter answers: some fuel suffices ... *)
+From Sq Require Pem.TermCert Pem.TermProgress Pem.Term Pem.TermEx.
+Theorem Pem_parse_terminates : forall g,
+  Pem.TermCert.term_safe_b g = true ->
+  forall toks ntoks rx s e,
+    Pem.NoPanic.toks_def toks ntoks -> (s <= e)%N -> (e <= ntoks)%N ->
+    exists fuel, Pem.Model.parse_root g toks rx fuel s e <> Pem.Model.RFuel.
+Proof. exact Pem.Term.parse_terminates. Qed.
+Print Assumptions Pem_parse_terminates.
+
+(** ... namely [fuel_bound g (e - s)] = (tokens + 1) * (number of nodes + 3) + number of nodes + 1, for any token
+    map at all (measure: tokens left, then rank) ... *)
+Theorem Pem_parse_terminates_bound : forall g,
+  Pem.TermCert.term_safe_b g = true ->
+  forall toks rx s e fuel, (s <= e)%N -> (Pem.Term.fuel_bound g (e - s) <= fuel)%nat ->
+    Pem.Model.parse_root g toks rx fuel s e <> Pem.Model.RFuel.
+Proof. exact Pem.Term.parse_terminates_bound. Qed.
+Print Assumptions Pem_parse_terminates_bound.
+
+(** ... and, by fuel monotonicity, the answer at the bound is the engine's answer. *)
+Theorem Pem_parse_answer_stable : forall g,
+  Pem.TermCert.term_safe_b g = true ->
+  forall toks rx s e fuel, (s <= e)%N -> (Pem.Term.fuel_bound g (e - s) <= fuel)%nat ->
+    Pem.Model.parse_root g toks rx fuel s e
+    = Pem.Model.parse_root g toks rx (Pem.Term.fuel_bound g (e - s)) s e.
+Proof. exact Pem.Term.parse_answer_stable. Qed.
+Print Assumptions Pem_parse_answer_stable.
+
+(** The same for any certificate (context terminators, token-consuming set, ranks) accepted by the checker. *)
+Theorem Pem_parse_terminates_cert : forall g cx tc rk,
+  Pem.TermCert.term_ok_b g cx tc rk = true ->
+  forall toks rx s e fuel, (s <= e)%N -> (Pem.Term.fuel_bound g (e - s) <= fuel)%nat ->
+    Pem.Model.parse_root g toks rx fuel s e <> Pem.Model.RFuel.
+Proof. exact Pem.Term.parse_terminates_cert. Qed.
+Print Assumptions Pem_parse_terminates_cert.
+
+(** Loop progress needs no condition on the options of [AnyNumberOf] / [Delimited]: whatever the graph, a match
+    returned by [longest_match] ends behind the index it was started at (the engine's own guard). *)
+Theorem Pem_longest_match_advances : forall g toks rec,
+  (forall n i l t m, (i <= l)%N -> rec n i l t = Pem.Model.ROk m -> Pem.Bounds.B i l m) ->
+  forall len ms idx terms m o,
+    Pem.Model.longest_match g toks rec len ms idx terms = Pem.Model.ROk (m, o) ->
+    Apply.Model.has_match m = true -> (idx < Apply.Model.mr_end m)%N.
+Proof. exact Pem.TermProgress.longest_match_adv. Qed.
+Print Assumptions Pem_longest_match_advances.
+
+(** The side condition cannot be dropped: on a left-recursive graph (a segment whose grammar refers back to the
+    segment) the interpreter answers for no fuel. *)
+Theorem Pem_term_safe_needed :
+  exists g toks, Pem.TermCert.term_safe_b g = false
+                 /\ forall rx fuel, Pem.Model.parse_root g toks rx fuel 0 1 = Pem.Model.RFuel.
+Proof. exact Pem.TermEx.term_safe_needed. Qed.
+Print Assumptions Pem_term_safe_needed.
